@@ -4,3 +4,5 @@ mod multinomial;
 pub mod vanilla;
 
 pub use data::RegretParams;
+#[cfg(erikbrinkman_cfr_verif)]
+pub(crate) use multinomial::Multinomial;
